@@ -73,3 +73,13 @@ Theorem C08_path_tables :
   path_truthy = [S "True"; S "true"] /\ path_falsy = [S "False"; S "false"] /\ path_start_sep = [S "."; S "["].
 Proof. repeat split; reflexivity. Qed.
 Print Assumptions C08_path_tables.
+
+(* ---- aliases are emitted literally --------------------------------------------- *)
+(* Dump keys, aliases, tag keys and path components are spliced into generated code
+   with repr (after fix F5 for dump keys).  For EVERY byte string a, the text
+   repr(a) lexes back to exactly a (model and proof: GenPyLit / GenPyLitProofs, C15). *)
+From DW Require GenPyLit GenPyLitProofs.
+Theorem C08_alias_spliced_literally :
+  forall a : pstr, GenPyLit.parse_literal (GenPyLit.py_repr a) = Some a.
+Proof. exact GenPyLitProofs.repr_roundtrip. Qed.
+Print Assumptions C08_alias_spliced_literally.
